@@ -173,7 +173,10 @@ def step (s : St) : Ev → Except String St
       else if p.evals.head? ≠ some src then .error "chg: stored residual is not the first sample of the evaluated point"
       else if ¬ allow then .error "chg: incumbent update disabled"
       else if ¬ s.hasH ∧ p.evals.length = 1 ∧ v ≠ p.vmean then .error "chg: stored objective differs from the evaluated one"
-      else if ¬ s.hasH ∧ ¬ overwriteOK m k v then .error "chg: incumbent's row overwritten by a worse point without saving it"
+      -- (with several samples the row's value is the objective of their mean, known to the model only after the
+      --  add_new_sample calls that follow: the first sample alone may be worse than the incumbent although the mean,
+      --  on which the solver based its decision, is better - the guard is applied to single-sample points)
+      else if ¬ s.hasH ∧ p.evals.length = 1 ∧ ¬ overwriteOK m k v then .error "chg: incumbent's row overwritten by a worse point without saving it"
       else match m.changePoint k p.xid [src] v label true with
         | .ok m' =>
           if m'.kopt ≠ koptAfter then .error "chg: kopt differs from the model's"
